@@ -79,7 +79,9 @@ type Sched struct {
 	// plan
 	FaultAt       map[int]FaultKind // 1-based index of released call -> fault
 	CancelAfter   int               // cancel request 0 after this many released calls (-1: never)
-	LockSites     string            // substring of the simlock sites that are scheduling points ("" none)
+	Sticky        int               // > 1: the request released last is released again with probability 1-1/Sticky (bursts)
+	lastReq       int
+	LockSites     string // substring of the simlock sites that are scheduling points ("" none)
 	lockEpoch     int
 	LockContended int
 	Cancels       []context.CancelFunc
@@ -108,6 +110,7 @@ func NewSched(t *Tape) *Sched {
 		tape:        t,
 		FaultAt:     map[int]FaultKind{},
 		CancelAfter: -1,
+		lastReq:     -1,
 		CancelledAt: -1,
 		FaultsFired: map[string]int{},
 		OpCount:     map[string]int{},
@@ -312,7 +315,24 @@ func (s *Sched) Drive(done func() bool, maxSteps int) DriveOutcome {
 			classes = append(classes, p)
 		}
 		s.ParkedSets[h] = struct{}{}
-		p := classes[s.tape.Choose(len(classes))]
+		var p *parkedCall
+		if s.Sticky > 1 && s.lastReq >= 0 {
+			// bursts: with probability 1-1/Sticky the request that ran last runs on, so
+			// that one request can get through MANY steps (a whole transaction) between
+			// two steps of another - uniform choice makes such schedules vanishingly rare
+			for _, c := range classes {
+				if c.req == s.lastReq && c.op != "lockwait" {
+					if s.tape.Choose(s.Sticky) != 0 {
+						p = c
+					}
+					break
+				}
+			}
+		}
+		if p == nil {
+			p = classes[s.tape.Choose(len(classes))]
+		}
+		s.lastReq = p.req
 		s.release(p)
 		if s.OnQuantum != nil {
 			s.OnQuantum()
